@@ -230,6 +230,10 @@ fn run_on<S: Store>(case: &Value, opts: &RunOpts) -> Value {
         out.insert("ins".into(), json!(ins));
         out.insert("jumps".into(), json!(jumps));
     }
+    if opts.inject {
+        // what a host does before it lets the collector run: the program's constants and the input value are kept
+        data.retain_now();
+    }
     execute(&mut data, b.start, input, opts, &mut out);
     Value::Object(out)
 }
